@@ -173,8 +173,8 @@ class FuncGen:
             sz = T.size_align(et)[0]
             d = self.dest(res)
             self.decls.add(d + '_ok')
-            self.emit('%s = CAS(%d, %s, %s, %s, %d, &%s_ok, %d);' % (d, tr.site_set(self.fname, pt, pv), self.v(pt, pv),
-                                                                    self.v(et, ev), self.v(nt, nv), sz, d, 1 if m.group(1) else 0))
+            self.emit('%s = CAS(%d, %s, %s, %s, %d, %d); %s_ok = vm_cas_ok;' % (d, tr.site_set(self.fname, pt, pv), self.v(pt, pv),
+                                                                    self.v(et, ev), self.v(nt, nv), sz, 1 if m.group(1) else 0, d))
             return
         if op == 'extractvalue':
             m = re.match(r'extractvalue \{ \w+\*?, i1 \} (%[\w.$-]+), (\d)', ln)
@@ -347,8 +347,14 @@ class FuncGen:
             size = cargs[0] if name == 'malloc' else '(%s * %s)' % (cargs[0], cargs[1])
             self.emit('%sVM_MALLOC(%d, %s, %d);' % (d, s['id'], size, 1 if name == 'calloc' else 0))
             return
+        if name == 'free' and tr.spec.get('no_free') and tr.mode == 'cbmc' and self.fname != 'vm_init':
+            self.emit('VM_ASSERT(%s == 0UL, "encoding: free() reached in a scenario declared free-less (no verdict)");' % cargs[0])
+            return
         if name == 'free':
             self.emit('VM_FREE(%d, %s);' % (tr.site_set(self.fname, args[0][0], args[0][1], 'f') if tr.mode != 'native' else 0, cargs[0]))
+            return
+        if name == '__errno_location':
+            self.emit('%s(%dUL + vm_kt * 8UL);' % (d, tr.errno_obj.base))
             return
         if name in ('abort', 'exit', '__assert_fail', '_exit'):
             self.emit('vm_abort(); return 0;')
@@ -508,7 +514,7 @@ def generate(Translator, ll, mode, outp, spec, init_objects):
     tr.icall_arities = set()
     tr.externals = set()
     tr.assert_msgs = []
-    tr.parking = set(spec.get('parking', [])) | {'vm_spin'}
+    tr.parking = set(spec.get('parking', [])) | {'vm_spin', 'vm_park'}
     roots = ['vm_init', 'vm_setup', 'vm_final'] + ['vm_thread_%d' % t for t in range(1, tr.nthreads + 1)] + spec.get('roots', [])
     if 'vm_init' not in mod.funcs:
         raise IRError('harness lacks vm_init')
@@ -520,6 +526,8 @@ def generate(Translator, ll, mode, outp, spec, init_objects):
     tr.scan_sites(funcs)
     tr.build_callgraph(funcs)
     tr.setup_dynamic_objects(funcs)
+    tr.M = None
+    tr.build_store_map(funcs)
     protos, bodies = [], []
     for f in funcs:
         p, b = FuncGen(tr, f).run()
@@ -618,9 +626,14 @@ def gen_memory_cbmc(tr):
                 out.append('__CPROVER_thread_local W %s;' % sh)
                 tr.shadow_in[t].append('%s = %s;' % (sh, m if sym else '%dUL' % init))
                 tr.shadow_out[t].append('%s = %s;' % (m, sh))
-                g = ('VM_ASSERT(vm_tid == %d || vm_tid == 0, "encoding: cell declared exclusive to one thread is accessed by another (no verdict)"); ' % t) if cell in tr.guarded else ''
-                arms_ld[cell] = 'case %dUL: %s%sreturn vm_tid == %d ? %s : %s;' % (addr, live, g, t, sh, m)
-                arms_st[cell] = 'case %dUL: %s%sif (vm_tid == %d) %s = v; else %s = v; return;' % (addr, live, g, t, sh, m)
+                if cell in tr.guarded:
+                    # declared exclusivity: other threads never get to touch the shared copy (no event), they trip an assertion
+                    g = 'VM_ASSERT(0, "encoding: cell declared exclusive to one thread is accessed by another (no verdict)");'
+                    arms_ld[cell] = 'case %dUL: %sif (vm_tid == %d) return %s; if (vm_tid == 0) return %s; %s return 0;' % (addr, live, t, sh, m, g)
+                    arms_st[cell] = 'case %dUL: %sif (vm_tid == %d) { %s = v; return; } if (vm_tid == 0) { %s = v; return; } %s return;' % (addr, live, t, sh, m, g)
+                else:
+                    arms_ld[cell] = 'case %dUL: %sreturn vm_tid == %d ? %s : %s;' % (addr, live, t, sh, m)
+                    arms_st[cell] = 'case %dUL: %sif (vm_tid == %d) %s = v; else %s = v; return;' % (addr, live, t, sh, m)
             else:
                 stats['shared'] += 1
                 arms_ld[cell] = 'case %dUL: %sreturn %s;' % (addr, live, m)
@@ -646,7 +659,7 @@ def gen_memory_cbmc(tr):
                 objs.append(o)
         fr = ' '.join('case %dUL: VM_ASSERT(lv_%d, "memory safety: double free or free of unallocated object"); lv_%d = 0; return;'
                       % (o.base, o.oid, o.oid) for o in objs)
-        out.append('static void fr_%d(W a){ switch(a){ case 0UL: return; %s default: vm_badfree(a); return; } }' % (k, fr))
+        out.append('static void fr_%d(W a){ switch(a){ case 0UL: return; %s default: if (vm_inrange(a) && (a & 0xfffffUL) == 0) VM_ASSERT(0, "encoding: free() target outside candidate set (no verdict)"); vm_badfree(a); return; } }' % (k, fr))
     out.append('#define SETS(X) ' + ' '.join('X(%d)' % k for k in range(len(tr.set_keys))))
     for s in tr.sites:
         if s['kind'] == 'heap':
